@@ -330,6 +330,13 @@ func UseGenOfGens(a, b int) int {
 	for _, it := range kept {
 		s = s*5 + drainAll(it)
 	}
+	// the drain idiom: no variable, empty body - every element is still pulled
+	dr := (Rcv{a}).Gen(3)
+	for range «RANGE(dr)» {
+	}
+	if dr.MoveNext() {
+		s = s*5 + dr.Current()
+	}
 	return vrt.V(%d, s+b)
 }
 `, tag())
